@@ -4,6 +4,14 @@ go 1.23
 
 require github.com/openconfig/goyang v0.0.0
 
-require github.com/google/go-cmp v0.7.0 // indirect
+require (
+	golang.org/x/mod v0.22.0 // indirect
+	golang.org/x/sync v0.10.0 // indirect
+)
+
+require (
+	github.com/google/go-cmp v0.7.0 // indirect
+	golang.org/x/tools v0.29.0
+)
 
 replace github.com/openconfig/goyang => /repo
